@@ -10,6 +10,10 @@ Part R: patterns whose first word is, begins with or contains a vendor's negatio
         reverse form the real compile_ordering_text gives such a rule (leading negation word taken off once).
 Part S: rule lines as written in files - pattern, spaces and/or tabs, %params - through _parse_raw_rule and the three
         text compilers: the row is the pattern and the params take effect; every raw shipped line likewise.
+Part L: what is written on one rule line stays on that line: for each of the four text compilers, every %param of its
+        scheme (with a value that differs from the default) put on the first of two (three) sibling rules, at top
+        level and inside a block - the compiled form of the OTHER rules (pattern, regex flags, every attribute) must
+        be what it is without the param.
 Part B: every rule line of every shipped .rul/.order/.deploy (rendered for a set of hardware views):
         a row synthesised from the line matches with the expected key; near-miss mutations do not.
 """
@@ -248,6 +252,7 @@ def blocks(tier, seed):
     bl += [{"part": "S", "i": i} for i in range(4)]
     bl += [{"part": "R", "i": i} for i in range(4)]
     bl += [{"part": "B", "i": i} for i in range(16)]
+    bl += [{"part": "L", "kind": k} for k in LEAK_PARAMS]
     return bl
 
 
@@ -315,7 +320,99 @@ def check_acl_ordering_reverse(p, rws, ctx):
                               "reverse matches=%r direct matches=%r" % (a, b))
 
 
+LEAK_PARAMS = {
+    "patching": ["%global", "%logic=common.undo_redo", "%diff_logic=common.ordered_diff", "%comment=!!x!!", "%multiline", "%ordered",
+                 "%rewrite", "%parent", "%force_commit", "%ignore_case"],
+    "ordering": ["%order_reverse", "%global", "%scope=patch"],
+    "acl": ["%global", "%cant_delete=1", "%prio=5", "%generator_names=g1"],
+    "deploying": ["%timeout=77", "%send_nl=0", "%apply_logic=aruba.ap_env.apply", "%ifcontext=block:x", "%ignore_case"],
+}
+LEAK_SHAPES = [
+    ("first-of-two", ["{A} {P}", "{B}"], [1]),
+    ("first-of-three", ["{A} {P}", "{B}", "{C}"], [1, 2]),
+    ("middle-of-three", ["{B}", "{A} {P}", "{C}"], [0, 2]),
+    ("first-child", ["blk *", "    {A} {P}", "    {B}"], [2]),
+    ("block-then-sibling", ["{A} {P}", "    {C}", "{B}"], [2]),
+]
+
+
+def _freeze(v):
+    """compiled rule structures with regexps made comparable (pattern + flags)"""
+    import re as _re
+    if isinstance(v, _re.Pattern):
+        return ("re", v.pattern, v.flags)
+    if isinstance(v, dict):
+        return {k: _freeze(x) for k, x in v.items() if k != "match"}
+    if isinstance(v, (list, tuple)):
+        return [_freeze(x) for x in v]
+    if callable(v):
+        return getattr(v, "__qualname__", repr(v))
+    return v
+
+
+def _compiled_rows(kind, text):
+    """-> {row text: frozen compiled entry (without children)} for every rule of the text, any depth"""
+    from annet.annlib.rbparser.ordering import compile_ordering_text
+    from annet.annlib.rbparser.acl import compile_acl_text
+    from annet.rulebook.patching import compile_patching_text
+    from annet.rulebook.deploying import compile_deploying_text
+    out = {}
+
+    def key(raw):
+        return raw.split(" %")[0].strip()
+
+    def walk_scoped(rb):        # {"local": {raw: rule}, "global": {raw: rule}}, rule = {..., "children": same or None}
+        for scope in ("local", "global"):
+            for raw, rule in (rb.get(scope) or {}).items():
+                out[key(raw)] = _freeze({k: v for k, v in rule.items() if k != "children"})
+                walk_scoped(rule.get("children") or {})
+
+    def walk_flat(rb):          # {raw: {"attrs": ..., "children": same}}
+        for raw, rule in (rb or {}).items():
+            out[key(raw)] = _freeze(rule["attrs"])
+            walk_flat(rule.get("children"))
+    if kind == "patching":
+        walk_scoped(compile_patching_text(text, "huawei"))
+    elif kind == "acl":
+        walk_scoped(compile_acl_text(text, "huawei"))
+    elif kind == "deploying":
+        walk_flat(compile_deploying_text(text, "huawei"))
+    else:
+        walk_flat(compile_ordering_text(text, "huawei"))
+    return out
+
+
+def run_l(block, ctx):
+    kind = block["kind"]
+    for param in LEAK_PARAMS[kind]:
+        for name, lines, others in LEAK_SHAPES:
+            with_p = "\n".join(ln.format(A="alpha *", B="beta *", C="gamma ~", P=param) for ln in lines) + "\n"
+            without = "\n".join(ln.format(A="alpha *", B="beta *", C="gamma ~", P="").rstrip() for ln in lines) + "\n"
+            case = {"part": "L", "compiler": kind, "param": param, "shape": name}
+            ctx.evals += 2
+            ctx.states += 1
+            try:
+                a, b = _compiled_rows(kind, with_p), _compiled_rows(kind, without)
+            except Exception as e:  # noqa
+                ctx.outcomes["L:%s:not-compilable" % kind] += 1
+                ctx.notes.append("part L: %s %s %s: %r" % (kind, param, name, e))
+                continue
+            ctx.nontrivial += int(a.get("alpha *") != b.get("alpha *"))
+            ctx.outcomes["L:%s:%s" % (kind, "param-changes-its-own-rule" if a.get("alpha *") != b.get("alpha *") else "param-without-effect")] += 1
+            for idx in others:
+                row = lines[idx].strip().format(A="alpha *", B="beta *", C="gamma ~", P="").strip()
+                if a.get(row) != b.get(row):
+                    diff = sorted(k for k in set(a.get(row) or {}) | set(b.get(row) or {}) if (a.get(row) or {}).get(k) != (b.get(row) or {}).get(k)) \
+                        if isinstance(a.get(row), dict) and isinstance(b.get(row), dict) else ["<entry>"]
+                    ctx.violation({"kind": "param-leaks-to-sibling-rule", "compiler": kind, "param": param.split("=")[0], "fields": diff},
+                                  dict(case, row=row), "text %r: rule %r compiled to %r, without the param on its neighbour to %r"
+                                  % (with_p, row, a.get(row), b.get(row)))
+    ctx.sample({"part": "L", "compiler": kind, "params": LEAK_PARAMS[kind], "shapes": [n for n, _, _ in LEAK_SHAPES]})
+
+
 def run_block(block, ctx):
+    if block["part"] == "L":
+        return run_l(block, ctx)
     if block["part"] == "A":
         run_a(block, ctx)
     elif block["part"] == "R":
@@ -428,6 +525,13 @@ def replay(case):
 
     def v(sig, c, detail=""):
         out.append((sig, detail))
+    if case.get("part") == "L":
+        import time
+        from mc.core import Ctx
+        ctx = Ctx(time.time() + 600, "quick", 0)
+        run_l({"part": "L", "kind": case["compiler"]}, ctx)
+        return [(e["sig"], e["cases"][0]["detail"]) for e in ctx.result()["viol"].values()
+                if e["sig"].get("param") == case["param"].split("=")[0]]
     if case.get("part") == "S":
         row, _ = syntax._parse_raw_rule(case.get("line") or (case["pattern"] + case["sep"] + "%global"), {})
         exp = case["pattern"] if "pattern" in case else re.sub(r"\s+", " ", case["line"][:re.search(r"\s%[a-zA-Z_]", case["line"]).start()].strip())
